@@ -371,6 +371,57 @@ def check(run):
     run.notes.append("after rollback sweep: %.1f s" % (time.time() - t_start))
     run.sample({"rollback_case": rcases[0]["model"], "model": rout[0] if rout else None})
 
+    # ------------------------------------------------------------------ 3b. structural cases of the property text
+    jobs = []
+    for k, (label, conf, expect) in enumerate(T.STRUCTURAL):
+        late = 2 if k % 3 == 2 else 0
+        sc = T.scenario(conf, 3, nsteps=5, late=late)
+        for var in variants:
+            if var == "asan" and quick and not label.startswith("group:") and k % 4 != run.seed % 4:
+                continue          # (the atom-group cases always run under the sanitizers: their failures are out-of-bounds reads)
+            jobs.append(((k, var), plain if var == "plain" else asan, sc, os.path.join(W, "x", var, str(k)), var, 20 if var == "plain" else 60))
+    sres = L.run_many(jobs)
+    for (k, var), rr in sorted(sres.items()):
+        label, conf, expect = T.STRUCTURAL[k]
+        sc = [j for j in jobs if j[0] == (k, var)][0][2]
+        lc = last_config(rr)
+        impl = rr["cls"] if rr["cls"] != "ok" else ("accept" if lc and lc[0] == "ok" else "reject")
+        run.count(("structural", label, var), impl != "accept")
+        run.dist("structural:%s" % (impl if impl in ("accept", "reject") else "died"))
+        if rr.get("skipped"):
+            continue
+        if rr["cls"] != "ok":
+            report_death("structural", label.split(":")[0], label, var, rr, sc, vclass=label.split(":", 1)[1])
+            continue
+        if impl == "reject":
+            check_survivors("structural", label, "-", var, rr, sc)
+        if expect is not None and impl != expect:
+            run.mismatch("structural:" + label, conf, impl, expect)
+    run.sample({"structural_case": T.STRUCTURAL[0][0], "impl": sres[(0, "plain")]["cls"]})
+
+    # ------------------------------------------------------------------ 3c. two walkers: the second one adds no hills
+    wd = os.path.join(W, "walkers")
+    os.makedirs(wd, exist_ok=True)
+    def walker(rid, nh):
+        conf = T.cv("x", 1, T.GRIDCV) + ("metadynamics {\n  name m\n  colvars x\n  hillWeight 0.1\n  hillWidth 2\n  newHillFrequency %s\n"
+                                         "  multipleReplicas on\n  replicaID %s\n  replicasRegistry %s/reg.txt\n  replicaUpdateFrequency 2\n}\n" % (nh, rid, wd))
+        sc = T.scenario(conf, 3, nsteps=6, base=False).replace("prefix out\n", "prefix\n")
+        i = sc.index("objs\n") + 5
+        return sc[:i] + "outprefix out_%s\n" % rid + sc[i:]
+    ra = L.run_scenario(plain, walker("a", "2"), wd, "plain", 30)
+    rb = L.run_scenario(plain, walker("b", "0"), wd, "plain", 30)
+    mlw = "meta rof=3 newhill=0 replicas=on upfreq=2"
+    rc, mw, _e = V.run_lines(model, [mlw])
+    run.count(("walkers", "newHillFrequency-0"), True)
+    run.dist("walkers:%s" % rb["cls"])
+    if ra["cls"] != "ok":
+        report_death("meta", "replicas", "2", "plain", ra, walker("a", "2"), vclass="first-walker")
+    if rb["cls"] != "ok":
+        report_death("meta", "replicas-newHillFrequency", "0", "plain", rb, walker("b", "0"), " (a second walker next to walker a; model: %s)" % (mw[0] if mw else "?"))
+        run.mismatch("table:meta.replicas", "walker b with newHillFrequency 0 next to walker a", rb["cls"], mw[0] if mw else "?")
+    elif mw and not mw[0].startswith("accept initsafe=1 stepsafe=1"):
+        run.mismatch("table:meta.replicas", mlw, "accept", mw[0])
+
     # ------------------------------------------------------------------ 4. search: harvested keywords
     budget = 35 if quick else 600
     search(run, r, plain, asan if not quick else None, W, quick, report_death, check_survivors_search=None,
@@ -484,9 +535,10 @@ def gen_rollback_case(r, k):
     model = "rollback have_cv=zz0,g0 have_bias=hh0:harmonic cvs=%s biases=%s" % (",".join(cvs) or "-", ";".join(groups) or "-")
     # NOTE harmonic with forceConstant 0 / hills of weight 0 -> the new biases do not change the forces on zz0 ... they
     # are on other variables anyway (g0 is a second base variable on atom 3)
-    sc = T.scenario(conf + bias_txt, 3, nsteps=4, base2=True)
+    late = 2 if k % 2 else 0          # every other case supplies the configuration at run time, after two steps
+    sc = T.scenario(conf + bias_txt, 3, nsteps=4, base2=True, late=late)
     nfail = sum(1 for c in cvs if c.endswith(":1")) + sum(1 for (_, _, f) in items if f)
-    return {"model": model, "scenario": sc, "nfail": nfail, "shape": "%dcv-%db-%df" % (ncv, nb, nfail), "failing_names": failing}
+    return {"model": model, "scenario": sc, "nfail": nfail, "shape": "%dcv-%db-%df%s" % (ncv, nb, nfail, "-late" if late else ""), "failing_names": failing}
 
 
 # ------------------------------------------------------------------------------------------------
